@@ -41,6 +41,22 @@ pub fn reserve_within_capacity<T, A: core::alloc::Allocator>(v: &mut Vec<T, A>, 
     kani::assume(room >= additional);
 }
 
+/// Vec::reserve for result vectors that start EMPTY and receive a symbolic number (<= 4) of elements
+/// (`blocks.extend(..)` in the index search): the first growth allocates a fixed capacity of 4 instead of the
+/// amortised, symbolic-size allocation; any other growth is a failed check.
+pub fn reserve_first_four<T, A: core::alloc::Allocator>(v: &mut Vec<T, A>, additional: usize) {
+    if v.capacity() - v.len() >= additional {
+        return;
+    }
+    kani::assert(v.capacity() == 0 && v.len() == 0 && additional <= 4, "[cap] Vec::reserve outside this harness's bounds (growth of a non-empty Vec or by more than 4)");
+    kani::assume(v.capacity() == 0 && v.len() == 0 && additional <= 4);
+    unsafe {
+        let p = std::alloc::alloc(std::alloc::Layout::array::<T>(4).unwrap()) as *mut T;
+        let a = core::ptr::read(v.allocator());
+        core::ptr::write(v, Vec::from_raw_parts_in(p, 0, 4, a));
+    }
+}
+
 /// replaces std::io::copy in harnesses that exercise in-memory staging only: the temp-file arms of
 /// TempFileBuffer are ASSERTED unreachable there (a reachable call is a failed check), which removes
 /// the 8 KiB stack-buffer copy loop from the symbolic execution
@@ -75,6 +91,39 @@ pub fn smallvec_push_inline<A: smallvec::Array>(v: &mut smallvec::SmallVec<A>, x
 /// validation loops (which fork per byte once the bytes have gone through a memcpy)
 pub fn from_utf8_trusting(v: Vec<u8>) -> Result<String, std::string::FromUtf8Error> {
     Ok(unsafe { String::from_utf8_unchecked(v) })
+}
+
+/// same for core::str::from_utf8 (chromosome names in read_chrom_tree_block): std's validation takes an
+/// alignment-dependent fast path (`align_offset`), which is nondeterministic under CBMC and forks per byte
+pub fn str_from_utf8_trusting(v: &[u8]) -> Result<&str, core::str::Utf8Error> {
+    Ok(unsafe { core::str::from_utf8_unchecked(v) })
+}
+
+/// stub for core::ptr::copy_nonoverlapping in reader harnesses: a byte loop instead of CBMC's memcpy
+/// (array_replace), so that constants copied by `try_into`, `to_vec`, `extend_from_slice` ... stay constants
+/// during symbolic execution. Same contract (non-overlapping, valid for count elements).
+pub unsafe fn copy_bytes_loop<T>(src: *const T, dst: *mut T, count: usize) {
+    let n = count * core::mem::size_of::<T>();
+    let s = src as *const u8;
+    let d = dst as *mut u8;
+    let mut i = 0;
+    while i < n {
+        *d.add(i) = *s.add(i);
+        i += 1;
+    }
+}
+
+/// stub for alloc::alloc::alloc_zeroed (`vec![0u8; n]` in the index readers): allocate, then zero byte by
+/// byte. CBMC's calloc initialises the object with one whole-array assignment, after which array-typed reads
+/// of it (`try_into::<[u8; 24]>`) are no longer constant-propagated.
+pub unsafe fn alloc_zeroed_loop(layout: std::alloc::Layout) -> *mut u8 {
+    let p = std::alloc::alloc(layout);
+    let mut i = 0;
+    while i < layout.size() {
+        *p.add(i) = 0;
+        i += 1;
+    }
+    p
 }
 
 /// poll a future once with a no-op waker (the bigtools encode/process futures have no real
@@ -499,6 +548,52 @@ pub mod ilist {
     }
 }
 
+/// An in-memory file whose `read` copies byte by byte (std's Cursor copies with memcpy, after which CBMC no
+/// longer constant-propagates the magic numbers, counts and sizes the readers branch and loop on).
+pub struct LoopCursor {
+    pub data: Vec<u8>,
+    pub pos: u64,
+}
+impl LoopCursor {
+    pub fn new(data: Vec<u8>) -> Self { LoopCursor { data, pos: 0 } }
+}
+impl io::Read for LoopCursor {
+    fn read(&mut self, buf: &mut [u8]) -> io::Result<usize> {
+        let len = self.data.len() as u64;
+        let start = if self.pos < len { self.pos } else { len } as usize;
+        let avail = self.data.len() - start;
+        let n = if buf.len() < avail { buf.len() } else { avail };
+        // 8 bytes per loop iteration: the loop bound of a harness then only has to cover len/8
+        let mut i = 0;
+        while i < n {
+            buf[i] = self.data[start + i];
+            if i + 1 < n { buf[i + 1] = self.data[start + i + 1]; }
+            if i + 2 < n { buf[i + 2] = self.data[start + i + 2]; }
+            if i + 3 < n { buf[i + 3] = self.data[start + i + 3]; }
+            if i + 4 < n { buf[i + 4] = self.data[start + i + 4]; }
+            if i + 5 < n { buf[i + 5] = self.data[start + i + 5]; }
+            if i + 6 < n { buf[i + 6] = self.data[start + i + 6]; }
+            if i + 7 < n { buf[i + 7] = self.data[start + i + 7]; }
+            i += 8;
+        }
+        self.pos += n as u64;
+        Ok(n)
+    }
+}
+impl io::Seek for LoopCursor {
+    fn seek(&mut self, to: io::SeekFrom) -> io::Result<u64> {
+        let (base, off) = match to {
+            io::SeekFrom::Start(n) => { self.pos = n; return Ok(n); }
+            io::SeekFrom::End(n) => (self.data.len() as u64, n),
+            io::SeekFrom::Current(n) => (self.pos, n),
+        };
+        match base.checked_add_signed(off) {
+            Some(n) => { self.pos = n; Ok(n) }
+            None => Err(io::Error::from(io::ErrorKind::InvalidInput)),
+        }
+    }
+}
+
 /// Model of the part of `bytes::BytesMut` that `bigbedread::get_block_entries` uses (with_capacity,
 /// extend_from_slice, len, get_u32, get_u32_le, get_u8, split_to, and Deref to the unread bytes).
 /// Reason: the real BytesMut keeps tagged integers in a pointer field (KIND_VEC position bits) and
@@ -538,6 +633,48 @@ pub mod bbuf {
             let a = [self.byte(), self.byte(), self.byte(), self.byte()];
             u32::from_le_bytes(a)
         }
+        pub fn zeroed(n: usize) -> Self {
+            let mut v = Vec::with_capacity(n);
+            let mut i = 0;
+            while i < n {
+                v.push(0u8);
+                if i + 1 < n { v.push(0u8); }
+                if i + 2 < n { v.push(0u8); }
+                if i + 3 < n { v.push(0u8); }
+                if i + 4 < n { v.push(0u8); }
+                if i + 5 < n { v.push(0u8); }
+                if i + 6 < n { v.push(0u8); }
+                if i + 7 < n { v.push(0u8); }
+                i += 8;
+            }
+            BytesMut { v, pos: 0 }
+        }
+        pub fn advance(&mut self, n: usize) {
+            assert!(n <= self.len(), "[bbuf] advance past the end (the real Buf panics too)");
+            self.pos += n;
+        }
+        pub fn get_u16(&mut self) -> u16 {
+            assert!(self.len() >= 2, "[bbuf] get_u16 past the end (the real Buf panics too)");
+            let a = [self.byte(), self.byte()];
+            u16::from_be_bytes(a)
+        }
+        pub fn get_u16_le(&mut self) -> u16 {
+            assert!(self.len() >= 2, "[bbuf] get_u16_le past the end (the real Buf panics too)");
+            let a = [self.byte(), self.byte()];
+            u16::from_le_bytes(a)
+        }
+        pub fn get_u64(&mut self) -> u64 {
+            assert!(self.len() >= 8, "[bbuf] get_u64 past the end (the real Buf panics too)");
+            let a = [self.byte(), self.byte(), self.byte(), self.byte(), self.byte(), self.byte(), self.byte(), self.byte()];
+            u64::from_be_bytes(a)
+        }
+        pub fn get_u64_le(&mut self) -> u64 {
+            assert!(self.len() >= 8, "[bbuf] get_u64_le past the end (the real Buf panics too)");
+            let a = [self.byte(), self.byte(), self.byte(), self.byte(), self.byte(), self.byte(), self.byte(), self.byte()];
+            u64::from_le_bytes(a)
+        }
+        pub fn get_f32(&mut self) -> f32 { f32::from_bits(self.get_u32()) }
+        pub fn get_f32_le(&mut self) -> f32 { f32::from_bits(self.get_u32_le()) }
         pub fn split_to(&mut self, at: usize) -> BytesMut {
             assert!(at <= self.len(), "[bbuf] split_to out of bounds (the real BytesMut panics too)");
             let mut front = Vec::with_capacity(at);
@@ -553,5 +690,79 @@ pub mod bbuf {
     impl core::ops::Deref for BytesMut {
         type Target = [u8];
         fn deref(&self) -> &[u8] { &self.v[self.pos..] }
+    }
+    impl core::ops::DerefMut for BytesMut {
+        fn deref_mut(&mut self) -> &mut [u8] { let p = self.pos; &mut self.v[p..] }
+    }
+    impl AsRef<[u8]> for BytesMut {
+        fn as_ref(&self) -> &[u8] { &self.v[self.pos..] }
+    }
+}
+
+/// Model of the part of `std::collections::HashMap` that `CachedBBIFileRead` uses (new, entry -> Occupied::get /
+/// Vacant::insert, get, insert, len, clear, clone): an association list. Reason: hashbrown's SIMD group probing
+/// (`simd_bitmask` over control bytes) does not finish symbolic execution (90 min, also with fixed hash keys).
+/// ASSUMPTION (not solver-checked, for the same reason): std's HashMap behaves as a finite map.
+pub mod hmap {
+    pub struct HashMap<K, V> {
+        items: Vec<(K, V)>,
+    }
+    pub enum Entry<'a, K, V> {
+        Occupied(OccupiedEntry<'a, K, V>),
+        Vacant(VacantEntry<'a, K, V>),
+    }
+    pub struct OccupiedEntry<'a, K, V> {
+        map: &'a mut HashMap<K, V>,
+        idx: usize,
+    }
+    pub struct VacantEntry<'a, K, V> {
+        map: &'a mut HashMap<K, V>,
+        key: K,
+    }
+    impl<K: PartialEq, V> HashMap<K, V> {
+        pub fn new() -> Self { HashMap { items: Vec::with_capacity(4) } }
+        fn find(&self, k: &K) -> Option<usize> {
+            let mut i = 0;
+            while i < self.items.len() {
+                if self.items[i].0 == *k { return Some(i); }
+                i += 1;
+            }
+            None
+        }
+        pub fn len(&self) -> usize { self.items.len() }
+        pub fn clear(&mut self) { self.items.clear() }
+        pub fn get(&self, k: &K) -> Option<&V> {
+            match self.find(k) { Some(i) => Some(&self.items[i].1), None => None }
+        }
+        pub fn insert(&mut self, k: K, v: V) -> Option<V> {
+            match self.find(&k) {
+                Some(i) => Some(core::mem::replace(&mut self.items[i].1, v)),
+                None => {
+                    assert!(self.items.len() < 4, "[hmap] model capacity exceeded");
+                    self.items.push((k, v));
+                    None
+                }
+            }
+        }
+        pub fn entry(&mut self, k: K) -> Entry<'_, K, V> {
+            match self.find(&k) {
+                Some(idx) => Entry::Occupied(OccupiedEntry { map: self, idx }),
+                None => Entry::Vacant(VacantEntry { map: self, key: k }),
+            }
+        }
+    }
+    impl<K: Clone, V: Clone> Clone for HashMap<K, V> {
+        fn clone(&self) -> Self { HashMap { items: self.items.clone() } }
+    }
+    impl<'a, K, V> OccupiedEntry<'a, K, V> {
+        pub fn get(&self) -> &V { &self.map.items[self.idx].1 }
+    }
+    impl<'a, K, V> VacantEntry<'a, K, V> {
+        pub fn insert(self, v: V) -> &'a mut V {
+            assert!(self.map.items.len() < 4, "[hmap] model capacity exceeded");
+            self.map.items.push((self.key, v));
+            let n = self.map.items.len();
+            &mut self.map.items[n - 1].1
+        }
     }
 }
